@@ -154,6 +154,8 @@ def install():
     L.ThreadLine.__bases__ = (prims.SimThread,)
     CC.time = SimTime(_time)
     CR.time = SimTime(_time)
+    import coba.context.loggers as LG
+    LG.time = SimTime(_time)        # elapsed seconds in log lines (their length is in the event log)
     try:
         import coba.environments.openml as OM
         OM.time = SimTime(_time)
